@@ -234,7 +234,7 @@ class World:
                 "line": f.get("lineno"),
                 "col": f.get("col_offset"),
                 "code": getattr(code, "name", None),
-                "desc": str(f.get("description", ""))[:400],
+                "desc": str(f.get("description", "")).replace(self.root, "<T>")[:400],
             })
         return out
 
